@@ -162,6 +162,8 @@ class LDAPMessageParsableBase(ParsableBase):
                 six.raise_from(NotEnoughData(bytes_requested - bytes_available), e)
             else:
                 six.raise_from(InvalidValue(parsable, cls), e)
+        except (AttributeError, KeyError, TypeError) as e:  # raised by asn1crypto for some malformed elements
+            six.raise_from(InvalidValue(parsable, cls), e)
 
         return message
 
